@@ -1281,9 +1281,10 @@ theorem oom_result_sound_xml2xml (binRow : Nat → Bool) (events : List XEvent) 
     covered by the conversion-level enumeration only, a TEST):
       * the body of the WBXML encoder — `wbxml_encode_value_element_buffer` with its value-element
         lists and buffers, the typed encoders (WV, date-time, OTA icon, DRMREL), the CDATA buffer of
-        `parse_cdata`, and `parse_text`'s in-place `wbxml_buffer_insert_cstr(node->content, "\r", 0)`,
-        whose result is ignored (finding `insert-cr-unchecked`): the model takes the body as the chunks
-        that are appended (`body`);
+        `parse_cdata`, and `parse_text`'s in-place `wbxml_buffer_insert_cstr(node->content, "\r", 0)`
+        (a `realloc` of a TREE buffer inside the encoder; its result was ignored until fix 8847582,
+        found while this model was written): the model takes the body as the chunks that are
+        appended (`body`);
       * the Wireless-Village / date-time decoders and the WV extension values of the WBXML parser;
       * an embedded document: `WBXML_SYNCML_DATA_TYPE_WBXML` inside the WBXML `characters` call-back
         (nested `wbxml_tree_from_wbxml`; the known finding `check-public-id-oom-embedded` lives there)
